@@ -1,3 +1,518 @@
-/- C18: property theorems (stub — not built yet) -/
+import RSVerif.Lemmas.Backlog
+/-
+C18 — The backlog ring returns the bytes written at an offset, or says they are gone.
+
+Model: RSVerif.Model.Backlog (`Sys.step`: every critical section under `bl.mu` is one atomic step; any
+number of reader threads, each idle / running / parked; `Broadcast` wakes all; memory and file stores).
+Spec:  RSVerif.Spec.Backlog (`Log.read/range/valid`, ghost history `runH`, reachable states `Reach`).
+All theorems quantify over `Reach s h`: every capacity > 0, both backends, any initial file content,
+every schedule of atomic steps (any total written, any number of wrap-arounds, any interleaving).
+Property theorems only; helper lemmas live in RSVerif.Lemmas.Backlog.
+-/
 namespace RSVerif.Properties.C18
+open RSVerif RSVerif.Backlog RSVerif.Spec.Backlog RSVerif.Lemmas.Backlog
+
+/-! ### 0. arithmetic of the ring -/
+
+/-- two absolute offsets less than one capacity apart never share a ring cell -/
+theorem ring_window {n p q : Nat} (h : p % n = q % n) (hpq : p ≤ q) (hq : q < p + n) : p = q :=
+  mod_window h hpq hq
+
+/-- `roffset`: the slice `p.b[offset:offset+maxlen]` lies inside the ring, inside the buffer and inside
+    the written data (so the Go slice expression cannot panic and `copy` copies exactly `maxlen`). -/
+theorem roffset_in_bounds (k size o w : Nat) (hs : 0 < size) (how : o ≤ w) :
+    (roffset k size o w).2 = o % size ∧
+    (roffset k size o w).2 + (roffset k size o w).1 ≤ size ∧
+    (roffset k size o w).1 ≤ k ∧ o + (roffset k size o w).1 ≤ w ∧
+    ((roffset k size o w).1 = 0 ↔ k = 0 ∨ o = w) := by
+  have := Nat.mod_lt o hs
+  rw [roffset_eq]
+  refine ⟨rfl, ?_, ?_, ?_, ?_⟩ <;> (show _; omega)
+
+/-- `woffset`: at least one byte is accepted (a write never blocks and never spins), never more than
+    fits before the seam. -/
+theorem woffset_in_bounds (k size w : Nat) (hs : 0 < size) :
+    (woffset k size w).2 = w % size ∧
+    (woffset k size w).2 + (woffset k size w).1 ≤ size ∧
+    (woffset k size w).1 ≤ k ∧ ((woffset k size w).1 = 0 ↔ k = 0) := by
+  have := Nat.mod_lt w hs
+  rw [woffset_eq]
+  refine ⟨rfl, ?_, ?_, ?_⟩ <;> (show _; omega)
+
+/-- `align`: a positive multiple of the unit, not below the request, less than one unit above it. -/
+theorem align_spec (req unit : Nat) (hu : 0 < unit) :
+    unit ≤ align req unit ∧ req ≤ align req unit ∧ align req unit % unit = 0 ∧
+    align req unit < max req 1 + unit := by
+  unfold align
+  split
+  · refine ⟨Nat.le_refl _, by omega, Nat.mod_self _, by omega⟩
+  · rename_i h
+    have h1 := Nat.div_add_mod (req + unit - 1) unit
+    have h2 := Nat.mod_lt (req + unit - 1) hu
+    rw [Nat.mul_comm] at h1
+    refine ⟨by omega, by omega, Nat.mul_mod_left _ _, by omega⟩
+
+/-- capacities start at one alignment unit (constants re-read from the source on every run) -/
+theorem capacity_mem (req : Nat) :
+    (Store.newMem req).size = align req Generated.C18.buffSizeAlign ∧
+    Generated.C18.buffSizeAlign ≤ (Store.newMem req).size ∧ req ≤ (Store.newMem req).size :=
+  ⟨rfl, (align_spec req _ (by decide)).1, (align_spec req _ (by decide)).2.1⟩
+
+theorem capacity_file (req : Nat) (content : Array UInt8) :
+    (Store.newFile req content).size = align req Generated.C18.fileSizeAlign ∧
+    Generated.C18.fileSizeAlign ≤ (Store.newFile req content).size ∧ req ≤ (Store.newFile req content).size :=
+  ⟨rfl, (align_spec req _ (by decide)).1, (align_spec req _ (by decide)).2.1⟩
+
+/-- `backlog.NewSize(req)` and `backlog.NewFileBacklog(req, f)` are initial states of `Reach` -/
+theorem reach_newMem (req : Nat) : Reach (Sys.newMem req) [] := by
+  have := Reach.init .mem (align req Generated.C18.buffSizeAlign) #[] (Nat.lt_of_lt_of_le (by decide) (align_spec req _ (by decide)).1)
+  exact this
+
+theorem reach_newFile (req : Nat) (content : Array UInt8) : Reach (Sys.newFile req content) [] := by
+  have := Reach.init .file (align req Generated.C18.fileSizeAlign) content (Nat.lt_of_lt_of_le (by decide) (align_spec req _ (by decide)).1)
+  exact this
+
+
+/-! ### 1. the invariant, for every capacity, total and interleaving -/
+
+theorem reach_all (kind : Kind) (size : Nat) (content : Array UInt8) (hs : 0 < size) (ops : List Op) :
+    Reach (runH (Sys.ofStore (Store.ofSize kind size content)) [] ops).1
+          (runH (Sys.ofStore (Store.ofSize kind size content)) [] ops).2.1 :=
+  reach_run (Reach.init kind size content hs) ops
+
+/-- Ring invariant: the write position is the total written, `bl.err` is never set, and while the
+    backlog is open every absolute offset `q` of the most recent `min (w, size)` bytes is stored in
+    ring cell `q % size` — after any number of wrap-arounds. -/
+theorem ring_invariant {s : Sys} {h : Bytes} (hr : Reach s h) :
+    s.bl.err = none ∧ 0 < s.size ∧ s.wpos = h.length ∧
+    (s.live = true → ∀ q, s.wpos - min s.wpos s.size ≤ q → q < s.wpos → s.cells[q % s.size]? = h[q]?) := by
+  obtain ⟨st, hbl, ⟨hpos, hw, hlive⟩, _⟩ := reach_inv hr
+  simp only [Sys.size, Sys.wpos, Sys.live, Sys.cells, hbl]
+  exact ⟨trivial, hpos, hw, fun hl => (hlive hl).2.2⟩
+
+/-- shape of the stores: the memory slice always has exactly `size` cells (with `roffset_in_bounds` /
+    `woffset_in_bounds`: no slice expression of buff.go can panic), and the file always holds at least the
+    retained window (so `ReadAt` never runs into `io.EOF`, cf. `done_spec`). -/
+theorem store_shape {s : Sys} {h : Bytes} (hr : Reach s h) (hl : s.live = true) :
+    ∃ st, s.bl.store = some st ∧ (st.kind = .mem → st.cells.size = st.size) ∧
+      (st.kind = .file → min h.length st.size ≤ st.cells.size) := by
+  obtain ⟨st, hbl, ⟨_, hw, hlive⟩, _⟩ := reach_inv hr
+  simp only [Sys.live, hbl] at hl
+  obtain ⟨h1, h2, _⟩ := hlive hl
+  exact ⟨st, by rw [hbl], h1, by rw [← hw]; exact h2⟩
+
+/-- the same, spelled out over an arbitrary operation list from a fresh backlog of arbitrary capacity -/
+theorem ring_invariant_all (kind : Kind) (size : Nat) (content : Array UInt8) (hs : 0 < size) (ops : List Op) :
+    let s := (runH (Sys.ofStore (Store.ofSize kind size content)) [] ops).1
+    let h := (runH (Sys.ofStore (Store.ofSize kind size content)) [] ops).2.1
+    s.size = size ∧ s.wpos = h.length ∧
+    (s.live = true → ∀ q, h.length - min h.length size ≤ q → q < h.length → s.cells[q % size]? = h[q]?) := by
+  intro s h
+  have hr := reach_all kind size content hs ops
+  have hsz : s.size = size := by
+    have := (run_size_live (reach_inv (Reach.init kind size content hs)) ops).1
+    rw [show s.size = _ from this]
+    cases kind <;> rfl
+  obtain ⟨_, _, hw, hring⟩ := ring_invariant hr
+  refine ⟨hsz, hw, fun hl q h1 h2 => ?_⟩
+  have := hring hl q (by rw [hw, hsz]; exact h1) (by rw [hw]; exact h2)
+  rw [hsz] at this; exact this
+
+/-- Refinement: one `readSomeAt` critical section of a running reader does exactly what the abstract
+    log promises for `(k, o)` in the current history. -/
+theorem read_refines_spec {s : Sys} {h : Bytes} (hr : Reach s h) {r seek k o : Nat} {u : Bool}
+    (hrd : s.rds[r]? = some (Reader.mk seek (.running k o u))) :
+    (s.step (.step r)).2 = Outcome.toEv r o ((s.log h).read k o) := by
+  obtain ⟨st, hbl, _, hev⟩ := step_read (reach_inv hr) hrd
+  rw [hev]; simp [Sys.log, Sys.size, Sys.live, hbl, logOf]
+
+/-! ### 2. the statements of the property -/
+
+/-- read_exact: a read that returns without error through a non-empty buffer returns at least one byte,
+    and the bytes are exactly `hist[o … o+n)`. -/
+theorem read_exact {s : Sys} {h : Bytes} (hr : Reach s h) {r seek k o : Nat} {u : Bool}
+    (hrd : s.rds[r]? = some (Reader.mk seek (.running k o u))) (hk : k ≠ 0)
+    {n : Nat} {bs : Bytes} (hev : (s.step (.step r)).2 = .done r o n bs none) :
+    1 ≤ n ∧ n ≤ k ∧ o + n ≤ h.length ∧ bs.length = n ∧ bs = (h.drop o).take n ∧
+    ∀ j, j < n → bs[j]? = h[o + j]? := by
+  rw [read_refines_spec hr hrd] at hev
+  obtain ⟨_, hpos, _, _⟩ := ring_invariant hr
+  have hmod := Nat.mod_lt o hpos
+  rcases log_read_cases (s.log h) k o with ⟨h0, _⟩ | ⟨_, _, he⟩ | ⟨_, _, _, he⟩ | ⟨_, _, _, he⟩ | ⟨_, _, ho, hv, he⟩
+  · exact absurd h0 hk
+  · rw [he] at hev; cases hev
+  · rw [he] at hev; cases hev
+  · rw [he] at hev; cases hev
+  · rw [he] at hev
+    simp only [Sys.log, Log.w, Log.count] at ho hv hev
+    simp only [Outcome.toEv, Ev.done.injEq, true_and, and_true] at hev
+    obtain ⟨hn, hbs⟩ := hev
+    rw [List.length_take, List.length_drop] at hn
+    have hc : min k (min (h.length - o) (s.size - o % s.size)) = n := by omega
+    rw [hc] at hbs
+    refine ⟨by omega, by omega, by omega, by rw [← hbs, List.length_take, List.length_drop]; omega, hbs.symm, ?_⟩
+    intro j hj
+    rw [← hbs, List.getElem?_take, if_pos hj, List.getElem?_drop]
+
+/-- invalid_iff: on an open backlog a read through a non-empty buffer fails with the invalid-offset
+    error exactly when the offset lies beyond the write position or has been overwritten. -/
+theorem invalid_iff {s : Sys} {h : Bytes} (hr : Reach s h) {r seek k o : Nat} {u : Bool}
+    (hrd : s.rds[r]? = some (Reader.mk seek (.running k o u))) (hk : k ≠ 0) (hl : s.live = true) :
+    (s.step (.step r)).2 = .done r o 0 [] (some .invalidOffset) ↔ (o > h.length ∨ o + s.size < h.length) := by
+  rw [read_refines_spec hr hrd]
+  rcases log_read_cases (s.log h) k o with ⟨h0, _⟩ | ⟨_, hc, _⟩ | ⟨_, _, hv, he⟩ | ⟨_, _, ho, he⟩ | ⟨_, _, ho, hv, he⟩
+  · exact absurd h0 hk
+  · simp [Sys.log, hl] at hc
+  · rw [he]; simp only [Sys.log, Log.w] at hv; simp [Outcome.toEv, hv]
+  · rw [he]; simp only [Sys.log, Log.w] at ho; simp only [Outcome.toEv]
+    constructor
+    · intro hx; cases hx
+    · intro hx; omega
+  · rw [he]; simp only [Sys.log, Log.w] at ho hv; simp only [Outcome.toEv]
+    constructor
+    · intro hx; simp at hx
+    · intro hx; omega
+
+/-- waits_iff: a read parks (sleeps in `rwait.Wait()`) exactly when the buffer is non-empty, the
+    backlog is open and the offset equals the write position. -/
+theorem waits_iff {s : Sys} {h : Bytes} (hr : Reach s h) {r seek k o : Nat} {u : Bool}
+    (hrd : s.rds[r]? = some (Reader.mk seek (.running k o u))) :
+    (s.step (.step r)).2 = .parked r ↔ (k ≠ 0 ∧ s.live = true ∧ o = h.length) := by
+  rw [read_refines_spec hr hrd]
+  rcases log_read_cases (s.log h) k o with ⟨h0, he⟩ | ⟨_, hc, he⟩ | ⟨_, _, hv, he⟩ | ⟨hk, hop, ho, he⟩ | ⟨_, _, ho, hv, he⟩
+  · rw [he]; simp [Outcome.toEv, h0]
+  · rw [he]; simp only [Sys.log] at hc; simp [Outcome.toEv, hc]
+  · rw [he]; simp only [Sys.log, Log.w] at hv; simp only [Outcome.toEv]
+    constructor
+    · intro hx; cases hx
+    · intro hx; omega
+  · rw [he]; simp only [Sys.log, Log.w] at ho hop; simp [Outcome.toEv, hk, hop, ho]
+  · rw [he]; simp only [Sys.log, Log.w] at ho; simp only [Outcome.toEv]
+    constructor
+    · intro hx; cases hx
+    · intro hx; omega
+
+/-- no lost wake-up: whoever is parked has a non-empty buffer, sits exactly at the write position, and
+    the backlog is open (every write that adds bytes and every close wakes all). -/
+theorem parked_only_at_head {s : Sys} {h : Bytes} (hr : Reach s h) {r seek k o : Nat} {u : Bool}
+    (hp : s.rds[r]? = some (Reader.mk seek (.parked k o u))) :
+    k ≠ 0 ∧ o = h.length ∧ s.live = true := by
+  obtain ⟨st, hbl, hst, hpk⟩ := reach_inv hr
+  obtain ⟨h1, h2, h3⟩ := hpk r seek k o u hp
+  exact ⟨by omega, by rw [h2, hst.2.1], by simp [Sys.live, hbl, h3]⟩
+
+/-- range_exact: while open, `DataRange` is the most recent `min (total written, capacity)` bytes. -/
+theorem range_exact {s : Sys} {h : Bytes} (hr : Reach s h) (hl : s.live = true) :
+    (s.step .dataRange).2 = .range (h.length - min h.length s.size) h.length none := by
+  obtain ⟨st, hbl, hst, _⟩ := reach_inv hr
+  obtain ⟨bl, rds⟩ := s
+  simp only at hbl; subst hbl
+  simp only [Sys.live] at hl
+  simp only [Sys.step, Backlog.dataRange, Store.dataRange, hl, Sys.size, hst.2.1]
+  simp only [ne_eq, not_true_eq_false, if_false, Bool.not_true, Bool.false_eq_true]
+  split
+  · simp; omega
+  · simp; omega
+
+/-- the promised range of the abstract log is what `DataRange` answers -/
+theorem range_refines_spec {s : Sys} {h : Bytes} (hr : Reach s h) (hl : s.live = true) :
+    (s.step .dataRange).2 = .range (s.log h).range.1 (s.log h).range.2 none := by
+  rw [range_exact hr hl]; rfl
+
+/-- what any completed read returned, whatever step produced it: `n` bytes that are `hist[o … o+n)`;
+    an error comes with no bytes and is the closed or the invalid-offset error (never `io.EOF` out of
+    the file, never anything else). -/
+theorem done_spec {s : Sys} {h : Bytes} (hr : Reach s h) {op : Op} {r o n : Nat} {bs : Bytes} {err : Option Err}
+    (hev : (s.step op).2 = .done r o n bs err) :
+    bs.length = n ∧ bs = (h.drop o).take n ∧ (n = 0 ∨ o + n ≤ h.length) ∧
+    (err = none ∨ (n = 0 ∧ (err = some .closed ∨ err = some .invalidOffset))) := by
+  obtain ⟨rfl, seek, k, u, hrd⟩ := done_event hev
+  rw [read_refines_spec hr hrd] at hev
+  rcases log_read_cases (s.log h) k o with ⟨_, he⟩ | ⟨_, _, he⟩ | ⟨_, _, _, he⟩ | ⟨_, _, _, he⟩ | ⟨hk, _, ho, hv, he⟩
+  · rw [he] at hev; simp only [Outcome.toEv, Ev.done.injEq, true_and] at hev
+    obtain ⟨rfl, rfl, rfl⟩ := hev; simp
+  · rw [he] at hev; simp only [Outcome.toEv, Ev.done.injEq, true_and] at hev
+    obtain ⟨rfl, rfl, rfl⟩ := hev; simp
+  · rw [he] at hev; simp only [Outcome.toEv, Ev.done.injEq, true_and] at hev
+    obtain ⟨rfl, rfl, rfl⟩ := hev; simp
+  · rw [he] at hev; cases hev
+  · rw [he] at hev
+    simp only [Sys.log, Log.w, Log.count] at ho hv hev
+    simp only [Outcome.toEv, Ev.done.injEq, true_and] at hev
+    obtain ⟨hn, hbs, rfl⟩ := hev
+    rw [List.length_take, List.length_drop] at hn
+    have hc : min k (min (h.length - o) (s.size - o % s.size)) = n := by omega
+    rw [hc] at hbs
+    refine ⟨by rw [← hbs, List.length_take, List.length_drop]; omega, hbs.symm, Or.inr (by omega), Or.inl rfl⟩
+
+/-- …and the invalid-offset error is reported in no other situation. -/
+theorem invalid_only_when_gone {s : Sys} {h : Bytes} (hr : Reach s h) {op : Op} {r o n : Nat} {bs : Bytes}
+    (hev : (s.step op).2 = .done r o n bs (some .invalidOffset)) :
+    n = 0 ∧ bs = [] ∧ s.live = true ∧ (o > h.length ∨ o + s.size < h.length) := by
+  obtain ⟨rfl, seek, k, u, hrd⟩ := done_event hev
+  rw [read_refines_spec hr hrd] at hev
+  rcases log_read_cases (s.log h) k o with ⟨_, he⟩ | ⟨_, _, he⟩ | ⟨_, hop, hv, he⟩ | ⟨_, _, _, he⟩ | ⟨_, _, _, _, he⟩
+  · rw [he] at hev; cases hev
+  · rw [he] at hev; cases hev
+  · rw [he] at hev; simp only [Outcome.toEv, Ev.done.injEq, true_and, and_true] at hev
+    exact ⟨hev.1.symm, hev.2.symm, hop, hv⟩
+  · rw [he] at hev; cases hev
+  · rw [he] at hev; cases hev
+
+/-- never other bytes: along ANY schedule from ANY reachable state, every read that ever completed
+    returned a slice of the (final) history at its offset. -/
+theorem never_other_bytes {s : Sys} {h : Bytes} (hr : Reach s h) (ops : List Op)
+    {r o n : Nat} {bs : Bytes} {err : Option Err} (hev : Ev.done r o n bs err ∈ (runH s h ops).2.2) :
+    bs.length = n ∧ bs = ((runH s h ops).2.1.drop o).take n ∧ (err ≠ none → n = 0) := by
+  induction ops generalizing s h with
+  | nil => simp [runH] at hev
+  | cons op ops ih =>
+    simp only [runH, List.mem_cons] at hev ⊢
+    rcases hev with hev | hev
+    · obtain ⟨h1, h2, h3, h4⟩ := done_spec hr hev.symm
+      obtain ⟨x, hx⟩ := run_hist_prefix (s.step op).1 (histStep s h op) ops
+      obtain ⟨y, hy⟩ : ∃ y, histStep s h op = h ++ y := by
+        cases op with
+        | writeSome bs => exact ⟨_, rfl⟩
+        | _ => exact ⟨[], by simp [histStep]⟩
+      refine ⟨h1, ?_, fun hne => by rcases h4 with h4 | h4; exact absurd h4 hne; exact h4.1⟩
+      rw [hx, hy, h2]
+      rcases h3 with h3 | h3
+      · subst h3; simp
+      · rw [List.append_assoc, List.drop_append_of_le_length (by omega), List.take_append_of_le_length (by rw [List.length_drop]; omega)]
+    · exact ih (Reach.step op hr) hev
+
+/-! ### 3. readers: validity -/
+
+theorem isValid_eq {s : Sys} {h : Bytes} (hr : Reach s h) (hl : s.live = true) (seek : Nat) :
+    s.bl.isValid seek = (s.log h).valid seek := by
+  obtain ⟨st, hbl, hst, _⟩ := reach_inv hr
+  simp only [Sys.live, hbl] at hl
+  simp only [Backlog.isValid, Backlog.dataRange, Store.dataRange, hbl, hl, Log.valid, Log.lo, Log.w, Sys.log,
+    Sys.size, hst.2.1, ne_eq, not_true_eq_false, if_false, Bool.not_true, Bool.false_eq_true]
+  split
+  · rename_i hge
+    simp only [ge_iff_le, Nat.min_eq_right hge]
+  · rename_i hlt
+    have : min h.length st.size = h.length := by omega
+    simp only [ge_iff_le, this, Nat.sub_self]
+
+/-- valid_iff: while the backlog is open, `IsValid` says exactly whether the reader's position lies
+    inside the reported data range `[w − min (w, size), w]` … -/
+theorem valid_iff {s : Sys} {h : Bytes} (hr : Reach s h) (hl : s.live = true) {r : Nat} {rd : Reader}
+    (hrd : s.rds[r]? = some rd) :
+    ∃ b, (s.step (.isValid r)).2 = .valid r b ∧
+      (b = true ↔ h.length - min h.length s.size ≤ rd.seek ∧ rd.seek ≤ h.length) := by
+  have hv := isValid_eq hr hl rd.seek
+  obtain ⟨bl, rds⟩ := s
+  simp only at hrd hv
+  refine ⟨bl.isValid rd.seek, by simp only [Sys.step, hrd], ?_⟩
+  rw [hv, log_valid_iff]
+  simp only [Log.lo, Log.w, Sys.log]
+
+/-- … which is exactly when a read at that position would NOT fail with the invalid-offset error. -/
+theorem valid_iff_readable {s : Sys} {h : Bytes} (hr : Reach s h) (hl : s.live = true) (seek : Nat) :
+    s.bl.isValid seek = true ↔ ¬ (seek > h.length ∨ seek + s.size < h.length) := by
+  rw [isValid_eq hr hl]
+  rw [log_valid_iff]
+  simp only [Log.lo, Log.w, Sys.log]
+  omega
+
+/-- `SeekTo` moves an idle reader and answers the validity of the new position. -/
+theorem seekTo_valid {s : Sys} {h : Bytes} (hr : Reach s h) (hl : s.live = true) {r seek o : Nat}
+    (hrd : s.rds[r]? = some (Reader.mk seek .idle)) :
+    (s.step (.seekTo r o)).2 = .valid r ((s.log h).valid o) ∧
+    (s.step (.seekTo r o)).1.rds[r]? = some (Reader.mk o .idle) := by
+  have hv := isValid_eq hr hl o
+  obtain ⟨bl, rds⟩ := s
+  simp only at hrd hv
+  have hlt : r < rds.length := by
+    rcases Nat.lt_or_ge r rds.length with h | h
+    · exact h
+    · rw [List.getElem?_eq_none h] at hrd; cases hrd
+  simp only [Sys.step, hrd, hv, List.getElem?_set, if_true, hlt]
+  exact ⟨trivial, trivial⟩
+
+/-- `NewReader` on an open backlog starts at the write position (and is therefore valid). -/
+theorem newReader_at_head {s : Sys} {h : Bytes} (hr : Reach s h) (hl : s.live = true) :
+    (s.step .newReader).2 = .reader s.rds.length none ∧
+    (s.step .newReader).1.rds[s.rds.length]? = some (Reader.mk h.length .idle) := by
+  obtain ⟨st, hbl, hst, _⟩ := reach_inv hr
+  obtain ⟨bl, rds⟩ := s
+  simp only at hbl; subst hbl
+  simp only [Sys.live] at hl
+  simp [Sys.step, Store.dataRange, hl, hst.2.1]
+  split <;> rfl
+
+/-! ### 4. writes never block; wake-ups -/
+
+/-- one `writeSome` on an open backlog with a non-empty buffer never blocks: it accepts at least one
+    byte (up to the ring seam), overwriting the oldest data, and appends exactly those bytes to the history. -/
+theorem writeSome_spec {s : Sys} {h : Bytes} (hr : Reach s h) (hl : s.live = true) {bs : Bytes} (hbs : bs ≠ []) :
+    ∃ n, n = min bs.length (s.size - h.length % s.size) ∧ 1 ≤ n ∧ n ≤ s.size ∧
+      (s.step (.writeSome bs)).2 = .wrote n none ∧
+      histStep s h (.writeSome bs) = h ++ bs.take n ∧
+      (s.step (.writeSome bs)).1.live = true ∧
+      (s.step (.writeSome bs)).1.rds = wakeAll s.rds := by
+  obtain ⟨st, hbl, hst, _⟩ := reach_inv hr
+  obtain ⟨bl, rds⟩ := s
+  simp only at hbl; subst hbl
+  simp only [Sys.live] at hl
+  have hbs' : bs.length ≠ 0 := fun h0 => hbs (List.eq_nil_of_length_eq_zero h0)
+  obtain ⟨st', hw, hn, hl', _, _, _, _⟩ := bl_write_live hst hl hbs'
+  have hmod := Nat.mod_lt st.wpos hst.1
+  refine ⟨_, rfl, ?_⟩
+  simp only [Sys.step, histStep, Sys.size, Sys.live, hw, ← hst.2.1, hl', if_true]
+  exact ⟨hn, by omega, trivial, trivial, trivial, trivial⟩
+
+/-- close/write wake EVERY parked thread (`Broadcast`), none stays parked -/
+theorem wakeAll_spec (rds : List Reader) (r : Nat) :
+    (∀ seek k o u, rds[r]? = some (Reader.mk seek (.parked k o u)) →
+        (wakeAll rds)[r]? = some (Reader.mk seek (.running k o u))) ∧
+    (∀ seek k o u, (wakeAll rds)[r]? ≠ some (Reader.mk seek (.parked k o u))) := by
+  refine ⟨fun seek k o u hp => ?_, fun seek k o u => wakeAll_not_parked rds r seek k o u⟩
+  rw [wakeAll_get, hp]; rfl
+
+/-- on a closed backlog every read through a non-empty buffer returns 0 bytes and the closed error -/
+theorem closed_reads_fail {s : Sys} {h : Bytes} (hr : Reach s h) (hl : s.live = false) {r seek k o : Nat} {u : Bool}
+    (hrd : s.rds[r]? = some (Reader.mk seek (.running k o u))) (hk : k ≠ 0) :
+    (s.step (.step r)).2 = .done r o 0 [] (some .closed) := by
+  rw [read_refines_spec hr hrd]
+  simp [Log.read, hk, Sys.log, hl, Outcome.toEv]
+
+/-- close_wakes_all_with_error: `Close`/`CloseWithError` wakes every waiting reader, leaves nobody
+    parked, and — whatever else is scheduled before the woken reader runs — its `ReadAt` returns
+    0 bytes and the closed-backlog error. -/
+theorem close_wakes_all_with_error {s : Sys} {h : Bytes} (hr : Reach s h) (e : Option Err) :
+    (s.step (.close e)).1.live = false ∧
+    (∀ (r seek k o : Nat) (u : Bool), (s.step (.close e)).1.rds[r]? ≠ some (Reader.mk seek (.parked k o u))) ∧
+    ∀ (r seek k o : Nat) (u : Bool), s.rds[r]? = some (Reader.mk seek (.parked k o u)) →
+      (s.step (.close e)).1.rds[r]? = some (Reader.mk seek (.running k o u)) ∧
+      ∀ ops : List Op, (∀ op ∈ ops, op ≠ .step r) →
+        ((runH (s.step (.close e)).1 h ops).1.step (.step r)).2 = .done r o 0 [] (some .closed) := by
+  have hr1 : Reach (s.step (.close e)).1 h := Reach.step (.close e) hr
+  have hrds : (s.step (.close e)).1.rds = wakeAll s.rds := by
+    obtain ⟨bl, rds⟩ := s; rfl
+  have hlive : (s.step (.close e)).1.live = false := by
+    obtain ⟨st, hbl, hst, _⟩ := reach_inv hr
+    obtain ⟨bl, rds⟩ := s
+    simp only at hbl; subst hbl
+    simp [Sys.step, Backlog.closeWithError, Sys.live, (store_close_inv hst).2.1]
+  refine ⟨hlive, fun r seek k o u => by rw [hrds]; exact (wakeAll_spec s.rds r).2 seek k o u, ?_⟩
+  intro r seek k o u hp
+  have hrun : (s.step (.close e)).1.rds[r]? = some (Reader.mk seek (.running k o u)) := by
+    rw [hrds]; exact (wakeAll_spec s.rds r).1 seek k o u hp
+  refine ⟨hrun, fun ops hops => ?_⟩
+  have hk := (parked_only_at_head hr hp).1
+  have hr2 := reach_run hr1 ops
+  have hl2 := ((run_size_live (reach_inv hr1) ops).2 hlive).1
+  exact closed_reads_fail hr2 hl2 (running_stable_run hrun ops hops) hk
+
+/-- write_wakes_all: a write that adds bytes wakes every waiting reader, and the woken reader's
+    `ReadAt` returns at least one of the bytes just written (it was waiting at the old write position). -/
+theorem write_wakes_all {s : Sys} {h : Bytes} (hr : Reach s h) (hl : s.live = true) {bs : Bytes} (hbs : bs ≠ []) :
+    (∀ (r seek k o : Nat) (u : Bool), (s.step (.writeSome bs)).1.rds[r]? ≠ some (Reader.mk seek (.parked k o u))) ∧
+    ∀ (r seek k o : Nat) (u : Bool), s.rds[r]? = some (Reader.mk seek (.parked k o u)) →
+      (s.step (.writeSome bs)).1.rds[r]? = some (Reader.mk seek (.running k o u)) ∧
+      ∃ n, 1 ≤ n ∧ n ≤ k ∧
+        ((s.step (.writeSome bs)).1.step (.step r)).2 = .done r o n (bs.take n) none := by
+  obtain ⟨n, hn, hn1, hn2, hev, hh, hl1, hrds⟩ := writeSome_spec hr hl hbs
+  have hr1 : Reach (s.step (.writeSome bs)).1 (h ++ bs.take n) := hh ▸ Reach.step (.writeSome bs) hr
+  refine ⟨fun r seek k o u => by rw [hrds]; exact (wakeAll_spec s.rds r).2 seek k o u, ?_⟩
+  intro r seek k o u hp
+  have hrun : (s.step (.writeSome bs)).1.rds[r]? = some (Reader.mk seek (.running k o u)) := by
+    rw [hrds]; exact (wakeAll_spec s.rds r).1 seek k o u hp
+  obtain ⟨hk, ho, _⟩ := parked_only_at_head hr hp
+  subst ho
+  refine ⟨hrun, min k n, by omega, Nat.min_le_left _ _, ?_⟩
+  rw [read_refines_spec hr1 hrun]
+  have hsz : (s.step (.writeSome bs)).1.size = s.size := (step_size_live (reach_inv hr) _).1
+  have hmod := Nat.mod_lt h.length (ring_invariant hr).2.1
+  have hlen : (h ++ bs.take n).length = h.length + n := by
+    rw [List.length_append, List.length_take]; omega
+  rcases log_read_cases ((s.step (.writeSome bs)).1.log (h ++ bs.take n)) k h.length with
+    ⟨h0, _⟩ | ⟨_, hc, _⟩ | ⟨_, _, hv, _⟩ | ⟨_, _, ho', _⟩ | ⟨_, _, _, _, he⟩
+  · exact absurd h0 hk
+  · simp [Sys.log, hl1] at hc
+  · simp only [Sys.log, Log.w, hlen, hsz] at hv; omega
+  · simp only [Sys.log, Log.w, hlen] at ho'; omega
+  · rw [he]
+    have hc : ((s.step (.writeSome bs)).1.log (h ++ bs.take n)).count k h.length = min k n := by
+      simp only [Log.count, Sys.log, Log.w, hlen, hsz]; omega
+    rw [hc]
+    simp only [Sys.log]
+    rw [List.drop_append_of_le_length (Nat.le_refl _), List.drop_length, List.nil_append, List.take_take,
+      Nat.min_eq_left (Nat.min_le_right k n)]
+    simp only [Outcome.toEv, List.length_take]
+    rw [show min (min k n) bs.length = min k n by omega]
+
+/-- `Write(b)` (the loop over `writeSome`) on an open backlog never blocks and never spins: it returns
+    `len(b)` without error, and the history grows by exactly `b` — for any length, i.e. any number of
+    wrap-arounds in one call. -/
+theorem write_all {s : Sys} {h : Bytes} (hr : Reach s h) (hl : s.live = true) (bs : Bytes) :
+    ∃ bl', Backlog.write (bs.length + 1) s.bl bs 0 = some (bl', bs.length, none) ∧
+      ∃ st', bl' = ⟨some st', none⟩ ∧ StoreInv st' (h ++ bs) ∧ st'.live = true ∧ st'.size = s.size := by
+  obtain ⟨st, hbl, hst, _⟩ := reach_inv hr
+  simp only [Sys.live, hbl] at hl
+  obtain ⟨st', hw, hinv, hl', hsz⟩ := write_loop hst hl bs (bs.length + 1) 0 (by omega)
+  rw [hbl, hw]
+  exact ⟨_, by simp, st', rfl, hinv, hl', by simp [Sys.size, hbl, hsz]⟩
+
+/-! ### 5. observations about `Close` that lie outside the property (modelled as written) -/
+
+/-- the inverted `nil` test of `CloseWithError`: the error handed in is never stored — `bl.err` stays
+    nil for ever; readers get the store's closed-backlog error instead (see `close_wakes_all_with_error`). -/
+theorem custom_close_error_lost {s : Sys} {h : Bytes} (hr : Reach s h) (c : Nat) :
+    (s.step (.close (some (.custom c)))).1.bl.err = none :=
+  (ring_invariant (Reach.step (.close (some (.custom c))) hr)).1
+
+/-- after `Close`, `DataRange` answers `(0, 0)` without an error -/
+theorem range_after_close {s : Sys} {h : Bytes} (hr : Reach s h) (hl : s.live = false) :
+    (s.step .dataRange).2 = .range 0 0 none := by
+  obtain ⟨st, hbl, hst, _⟩ := reach_inv hr
+  obtain ⟨bl, rds⟩ := s
+  simp only at hbl; subst hbl
+  simp only [Sys.live] at hl
+  simp [Sys.step, Backlog.dataRange, Store.dataRange, hl]
+
+/-! ### 6. non-vacuity: a schedule on a 4-byte ring that wraps three times, parks two readers, wakes
+       them by a write, overwrites a reader, and closes under a parked reader -/
+
+def demoOps : List Op :=
+  [.newReader, .newReader, .begin 0 3, .step 0, .begin 1 2, .step 1,
+   .writeSome [1, 2, 3, 4, 5, 6], .step 0, .step 1,
+   .writeSome [5, 6, 7], .writeSome [8, 9, 10, 11, 12], .writeSome [9, 10, 11, 12], .writeSome [13, 14, 15],
+   .begin 0 3, .step 0, .seekTo 0 11, .begin 0 10, .step 0, .begin 0 10, .step 0, .isValid 1, .dataRange,
+   .begin 0 5, .step 0, .close (some (.custom 7)), .step 0, .dataRange]
+
+def demo (kind : Kind) := runH (Sys.ofStore (Store.ofSize kind 4 #[])) [] demoOps
+
+example : (demo .mem).2.2 =
+  [.reader 0 none, .reader 1 none, .began 0, .parked 0, .began 1, .parked 1,
+   .wrote 4 none, .done 0 0 3 [1, 2, 3] none, .done 1 0 2 [1, 2] none,
+   .wrote 3 none, .wrote 1 none, .wrote 4 none, .wrote 3 none,
+   .began 0, .done 0 3 0 [] (some .invalidOffset), .valid 0 true, .began 0, .done 0 11 1 [12] none,
+   .began 0, .done 0 12 3 [13, 14, 15] none, .valid 1 false, .range 11 15 none,
+   .began 0, .parked 0, .closed none, .done 0 15 0 [] (some .closed), .range 0 0 none] := by decide +kernel
+
+example : (demo .file).2.2 = (demo .mem).2.2 := by decide +kernel
+example : (demo .mem).2.1 = [1, 2, 3, 4, 5, 6, 7, 8, 9, 10, 11, 12, 13, 14, 15] := by decide
+example : Reach (demo .file).1 (demo .file).2.1 := reach_all .file 4 #[] (by decide) demoOps
+
+/-- the hypotheses of `read_exact` / `read_refines_spec` hold in a state whose history has wrapped the
+    ring three times (reader 0 is about to read 10 bytes at offset 12 of 15 written, capacity 4) -/
+example : ∃ s h, Reach s h ∧ h.length > 3 * s.size ∧ s.live = true ∧
+    s.rds[0]? = some (Reader.mk 12 (.running 10 12 true)) ∧
+    (s.step (.step 0)).2 = .done 0 12 3 [13, 14, 15] none :=
+  ⟨_, _, reach_all .mem 4 #[] (by decide) (demoOps.take 19), by decide +kernel, by decide +kernel,
+    by decide +kernel, by decide +kernel⟩
+
+/-- the hypotheses of `invalid_iff` (overwritten offset) and of `close_wakes_all_with_error` /
+    `parked_only_at_head` (a parked reader) are satisfiable -/
+example : ∃ s h, Reach s h ∧ s.live = true ∧ s.rds[0]? = some (Reader.mk 3 (.running 3 3 true)) ∧
+    3 + s.size < h.length :=
+  ⟨_, _, reach_all .file 4 #[] (by decide) (demoOps.take 14), by decide +kernel, by decide +kernel, by decide +kernel⟩
+
+example : ∃ s h, Reach s h ∧ s.rds[0]? = some (Reader.mk 15 (.parked 5 15 true)) ∧ h.length = 15 :=
+  ⟨_, _, reach_all .mem 4 #[] (by decide) (demoOps.take 24), by decide +kernel, by decide +kernel⟩
 end RSVerif.Properties.C18
